@@ -199,6 +199,7 @@ func Start(cfg *SchedConfig) {
 	waitSeq, sinceProgress, atomicDemotions = 0, 0, 0
 	slotPressure = false
 	sandwichSlot, sandwichLeft, highPrio = -1, 0, math.MaxInt64/2+1
+	egReset()
 	hiSlot = 1
 	for i := range wgKeys {
 		wgKeys[i] = 0
